@@ -300,6 +300,9 @@ func randModelGlyph(r *rng) *mGlyph {
 			return rat2{r.rangeInt(-4000, 4000), pick(r, []int{2, 4, 8})}
 		case 1:
 			return rat2{r.rangeInt(-3000, 3000), pick(r, []int{3, 7, 10, 100})}
+		case 2:
+			// not representable by the library's encoder (denominator above 107): written back within 1/214
+			return rat2{r.rangeInt(-300000, 300000), pick(r, []int{300, 997})}
 		default:
 			return rat2{r.rangeInt(-1200, 1200), 1}
 		}
@@ -308,7 +311,11 @@ func randModelGlyph(r *rng) *mGlyph {
 	for k := r.intn(4); k > 0; k-- {
 		c := mContour{start: pt()}
 		cur := c.start
-		for j := r.rangeInt(1, 6); j > 0; j-- {
+		nseg := r.rangeInt(1, 6)
+		if r.chance(1, 12) {
+			nseg = r.rangeInt(20, 40) // long contours: rounding must not accumulate along the path
+		}
+		for j := nseg; j > 0; j-- {
 			if r.chance(1, 2) {
 				p := pt()
 				if r.chance(1, 3) {
@@ -367,7 +374,7 @@ func randModelFont(r *rng) *modelFont {
 		f.matrix = [6]float64{0.0005, 0, 0, 0.0005, 0, 0}
 	}
 	std := []string{"A", "B", "C", "a", "b", "space", "zero", "exclam", "acute", "grave", "e"}
-	other := []string{"uni0041", "a.alt", "f_i", "Aacute", "x-1"}
+	other := []string{"uni0041", "a.alt", "f_i", "Aacute", "x-1", "\xc4\x80", "n\xc4\xa8", "\xff\xfe"} // names are byte strings: UTF-8 and non-UTF-8 bytes above 127
 	for _, n := range append(std, other...) {
 		if r.chance(1, 2) {
 			f.glyphs[n] = randModelGlyph(r)
@@ -454,6 +461,13 @@ func randModelFont(r *rng) *modelFont {
 func funitI16(v int) (r funitInt16) { return funitInt16(v) }
 
 func (mf *modelFont) render(r *rng) ([]byte, string) {
+	rf, l := mf.renderParts(r)
+	desc := fmt.Sprintf("%s lenIV=%d alt=%v", l.Format, rf.LenIV, l.AltNames)
+	return rf.render(l), desc
+}
+
+// renderParts gives the independent writer's view of the font and a random conforming layout
+func (mf *modelFont) renderParts(r *rng) (*renderFont, renderLayout) {
 	rf := &renderFont{FontName: mf.name, Glyphs: map[string][]byte{}, StdEncoding: mf.stdEnc, Encoding: mf.encoding, CreationDate: mf.dateText}
 	var keys []string
 	for k := range mf.info {
@@ -502,8 +516,7 @@ func (mf *modelFont) render(r *rng) ([]byte, string) {
 			break
 		}
 	}
-	desc := fmt.Sprintf("%s lenIV=%d alt=%v", l.Format, rf.LenIV, l.AltNames)
-	return rf.render(l), desc
+	return rf, l
 }
 
 func (r *rng) shuffleStrings(s []string) {
